@@ -94,7 +94,8 @@ BaseCalls(r, h) ==
 FinalCalls(r) ==
     {[f |-> "un", op |-> op, opts |-> o] : op \in FinalMenu(Cols(r)), o \in AllOpts}
       \cup {[f |-> "join", p |-> p, backtrack |-> bt, transfer |-> tr] :
-              p \in {PLit(TRUE), Cmp("le", A, CC)}, bt \in BOOLEAN, tr \in BOOLEAN}
+              p \in {q \in {PLit(TRUE), Cmp("le", A, CC), Cmp("le", D, CC)} : ReqP(q) \subseteq Cols(r) \cup {"a", "c"}},
+              bt \in BOOLEAN, tr \in BOOLEAN}
 
 Init == /\ src \in Sources
         /\ l1 \in Contents
